@@ -207,13 +207,19 @@ def run(pid, repo, verbose=True, jobs=16):
     if not vs:
         print(f'selftest {pid}: no variants')
         return True, dict(variants=0)
+    # the small-model interpreter against CPython on its own snippets
+    from . import interp_selftest
+    n_snip, disagree = interp_selftest.run()
+    for k, body, want, got in disagree:
+        print(f'selftest {pid} interpreter snippet {k}: CPython {want}, '
+              f'interpreter {got}')
     base = analyse(pid, repo)
     base_keys = {f.key for f in base.findings}
     work = [(pid, repo, v, base_keys) for v in vs]
     with concurrent.futures.ProcessPoolExecutor(
             max_workers=min(jobs, len(work))) as ex:
         results = list(ex.map(run_variant, work))
-    ok = True
+    ok = not disagree
     n = dict(ok=0, fail=0, stale=0, miss=0)
     for r in results:
         n[r['status']] += 1
@@ -228,6 +234,8 @@ def run(pid, repo, verbose=True, jobs=16):
           f'{n["ok"]} ok, {n["fail"]} failed, {n["stale"]} stale, '
           f'{n["miss"]} documented miss(es)')
     summary = dict(
+        interpreter_snippets=n_snip,
+        interpreter_disagreements=len(disagree),
         variants=len(vs), breaking=nb, seeded=ns, benign=len(vs) - nb,
         ok=n['ok'],
         failed=n['fail'], stale=n['stale'], documented_misses=[
